@@ -3165,3 +3165,144 @@ func ruleExpAbsolute(w *World, r *Report) {
 		r.ok("EXP-ABSOLUTE", key, w.Pos(fn.Pos()), "the given instant is never combined with the clock")
 	}
 }
+
+// NIL-ZERO-ARG (C13): a variable that was never assigned is not handed to code that uses it.
+func ruleNilZeroArg(w *World, r *Report) {
+	r.Rule("NIL-ZERO-ARG", "no call hands a rulio function the zero value of a local variable or named result of interface or pointer type that no assignment can have reached yet (no store to the variable reaches the load), when that function invokes a method on, or dereferences, the parameter it receives it in: the call panics with a nil dereference — in the HTTP listener that kills the serving goroutine as soon as the pending-request limit is reached", 1)
+	usesParam := func(f *ssa.Function, idx int) bool {
+		if f == nil || f.Blocks == nil || idx >= len(f.Params) {
+			return false
+		}
+		p := f.Params[idx]
+		used := false
+		// only what is reachable when the parameter IS nil: edges on which a test found it non-nil are deleted
+		del := map[bedge]bool{}
+		for _, b := range f.Blocks {
+			if len(b.Instrs) == 0 {
+				continue
+			}
+			ifi, ok := b.Instrs[len(b.Instrs)-1].(*ssa.If)
+			if !ok {
+				continue
+			}
+			ct, ok := decodeIf(ifi)
+			if !ok || ct.V != ssa.Value(p) {
+				// `ctx != nil && ...`: the left operand decides on its own edge, which decodeIf sees as a test of p
+				continue
+			}
+			if ct.TrueWhen == "nonnil" {
+				del[bedge{b, 0}] = true
+			} else if ct.TrueWhen == "nil" {
+				del[bedge{b, 1}] = true
+			}
+		}
+		live := blocksReachable(f, edgeFilterOf(del))
+		allInstrs(f, func(in ssa.Instruction) {
+			if !live[in.Block()] {
+				return
+			}
+			switch x := in.(type) {
+			case ssa.CallInstruction:
+				c := x.Common()
+				if c.IsInvoke() && c.Value == ssa.Value(p) {
+					used = true
+				}
+				// handed on to something that wraps it (bufio.NewWriter(c)) and is used afterwards: count an
+				// argument position of an external constructor as a use
+				for _, a := range c.Args {
+					if a == ssa.Value(p) {
+						if cf := c.StaticCallee(); cf == nil || cf.Pkg == nil || !strings.HasPrefix(cf.Pkg.Pkg.Path(), modPath) {
+							used = true
+						}
+					}
+				}
+			case *ssa.UnOp:
+				if x.Op == token.MUL && x.X == ssa.Value(p) {
+					used = true
+				}
+			case *ssa.FieldAddr:
+				if x.X == ssa.Value(p) {
+					used = true
+				}
+			}
+		})
+		return used
+	}
+	n := 0
+	sites := 0
+	for _, fn := range w.Funcs {
+		if isTestFile(w, fn) || fn.Synthetic != "" {
+			continue
+		}
+		pk := w.RelPkg(fn)
+		if pk != "core" && pk != "sys" && pk != "service" && pk != "cron" && pk != "crolt" {
+			continue
+		}
+		allInstrs(fn, func(in ssa.Instruction) {
+			ci, ok := in.(ssa.CallInstruction)
+			if !ok {
+				return
+			}
+			c := ci.Common()
+			f := c.StaticCallee()
+			if f == nil || !w.IsRulio(f) {
+				return
+			}
+			for ai, a := range c.Args {
+				// the zero value itself: a named result that is read before anything was assigned to it is a nil constant
+				if k, isConst := a.(*ssa.Const); isConst && k.Value == nil {
+					switch a.Type().Underlying().(type) {
+					case *types.Interface, *types.Pointer:
+						sites++
+						if usesParam(f, ai) {
+							n++
+							r.violation("NIL-ZERO-ARG", "fn="+fname(fn)+" callee="+fname(f), w.PosOf(in), "the argument is nil (a variable that nothing has assigned yet), and the callee calls a method on it / dereferences it")
+						}
+					}
+					continue
+				}
+				ld, ok := a.(*ssa.UnOp)
+				if !ok || ld.Op != token.MUL {
+					continue
+				}
+				al, ok := ld.X.(*ssa.Alloc)
+				if !ok {
+					continue
+				}
+				switch a.Type().Underlying().(type) {
+				case *types.Interface, *types.Pointer:
+				default:
+					continue
+				}
+				sites++
+				// can any store to the variable reach this load?
+				reached := false
+				escapes := false
+				for _, ref := range *al.Referrers() {
+					switch y := ref.(type) {
+					case *ssa.Store:
+						if y.Addr == ssa.Value(al) && (reachable(fn, y, ld) || y.Block() == ld.Block() && posOfInstr(y).i < posOfInstr(ld).i) {
+							reached = true
+						}
+					case *ssa.UnOp:
+					default:
+						// its address is taken (a closure, a call): somebody else may assign it
+						if _, isDbg := ref.(*ssa.DebugRef); !isDbg {
+							escapes = true
+						}
+					}
+				}
+				if reached || escapes {
+					continue
+				}
+				if !usesParam(f, ai) {
+					continue
+				}
+				n++
+				r.violation("NIL-ZERO-ARG", "fn="+fname(fn)+" callee="+fname(f), w.PosOf(in), "the argument is a variable that nothing has assigned yet (its zero value, nil), and the callee calls a method on it / dereferences it")
+			}
+		})
+	}
+	r.ok("NIL-ZERO-ARG", "scope=core sys service cron crolt", "", itoa(sites)+" call arguments loaded from local variables of interface / pointer type examined")
+	_ = n
+}
